@@ -29,7 +29,10 @@ def _frame():
         "t": [dt.datetime(2020, 2, 29, 12, 30, 1), dt.datetime(2001, 1, 1, 0, 0, 0), None, dt.datetime(2021, 6, 1, 23, 59, 59),
               dt.datetime(2020, 2, 28, 1, 2, 3)],
         "u": [dt.timedelta(days=1), dt.timedelta(seconds=5), None, dt.timedelta(hours=-3), dt.timedelta(0)],
-    }, schema={"k": pl.Int64, "i": pl.Int64, "f": pl.Float64, "s": pl.String, "b": pl.Boolean, "d": pl.Date, "t": pl.Datetime("us"),
+        # narrow / unsigned integers: an implementation registered for Int64 only must not be what decides the result type
+        "j": [3, None, -2, 7, 0],
+        "w": [3, None, 2, 7, 0],
+    }, schema={"j": pl.Int8, "w": pl.UInt16, "k": pl.Int64, "i": pl.Int64, "f": pl.Float64, "s": pl.String, "b": pl.Boolean, "d": pl.Date, "t": pl.Datetime("us"),
                "u": pl.Duration("us")})
 
 
@@ -60,6 +63,12 @@ def _col_types():
 
     return [("i", pdt.Int64()), ("f", pdt.Float64()), ("s", pdt.String()), ("b", pdt.Bool()), ("d", pdt.Date()), ("t", pdt.Datetime()),
             ("u", _Duration())]
+
+
+def _narrow_ints():
+    import pydiverse.transform as pdt
+
+    return [("j", pdt.Int8()), ("w", pdt.UInt16())]
 
 
 def _const_values(ty):
@@ -124,7 +133,12 @@ def cases():
                         alts.append([("const", v) for v in vals] or None)
                     else:
                         cands = [cn for cn, cty in cts if cty == base] or [cn for cn, cty in cts if types.converts_to(cty, base)]
-                        alts.append([("col", cands[0])] if cands else None)
+                        if cands and cands[0] == "i" and len(params) <= 2:
+                            # an integer parameter: also the narrow and the unsigned column
+                            cands = cands[:1] + [cn for cn, cty in _narrow_ints() if types.converts_to(cty, base)]
+                        else:
+                            cands = cands[:1]
+                        alts.append([("col", cn) for cn in cands] if cands else None)
                     if alts[-1] is None:
                         ok = False
                         break
